@@ -52,7 +52,16 @@ type Task struct {
 
 // deadlockTimeout: a released task reaches its next seam within microseconds;
 // twenty seconds of silence on an otherwise idle scheduler is a deadlock.
-const deadlockTimeout = 20 * time.Second
+// (Candidates tried while a confirmed deadlock is being minimised use a
+// shorter limit, set through the environment; the script that is finally
+// reported is confirmed with the full limit again.)
+var deadlockTimeout = 20 * time.Second
+
+func init() {
+	if v, err := strconv.Atoi(os.Getenv("TABSIM_DEADLOCK_S")); err == nil && v > 0 {
+		deadlockTimeout = time.Duration(v) * time.Second
+	}
+}
 
 // ExitDeadlock is the exit code of a process whose scheduler found the
 // released task blocked for good.
